@@ -397,6 +397,8 @@ class World(object):
         self.ops_done.append(op)
         name = op[0]
         try:
+            if self.coalesce and name != "rx":
+                self.flush_segments()        # a segment is a run of consecutive deliveries; it ends here
             getattr(self, "op_" + name)(*op[1:])
         finally:
             self.ctx = None
@@ -492,6 +494,30 @@ class World(object):
                 elif action == "unsubscribe":
                     self.op_unsubscribe(a, 0, 1, 0)
                 return
+
+    def flush_segments(self):
+        for a, co in list(self.coalesce.items()):
+            del self.coalesce[a]
+            conn = self.cur.get(a)
+            if not co[1] or not self.can_rx(conn):
+                continue
+            data = b"".join(d for d, _ in co[1])
+            parts = [d for _, d in co[1]]
+            desc = ("SEGMENT",) + tuple(d[0] for d in parts) if len(parts) > 1 else parts[0]
+            self._deliver_now(conn, data, desc, parts)
+
+    def _deliver_now(self, conn, data, desc, parts):
+        self.push(("rx",) + tuple(desc))
+        try:
+            self.ev(conn, "rx", data=data, desc=desc, nchunks=1, parts=parts)
+            try:
+                conn.proto.dataReceived(data)
+            except CaseTooBig:
+                raise
+            except Exception as x:  # noqa: BLE001
+                self.escape("dataReceived", x)
+        finally:
+            self.pop()
 
     def op_coalesce(self, a, n):
         """the next n broker packets for address a arrive in one TCP segment"""
